@@ -245,11 +245,30 @@ class Scenario:
         conn = Conn(user)
         self.w.run(self.w.client.peers._on_peer_directory_contents_req(PeerDirectoryContentsRequest.Request(ticket=7, directory=rd), conn))
         files = []
+        replied = False
         for m in conn.sent:
             if isinstance(m, PeerDirectoryContentsReply.Request):
+                replied = True
                 for dd in m.directories:
                     files += [f.filename for f in dd.files]
-        return {'dir': rd, 'mode': mode, 'files': files}
+        return {'dir': rd, 'mode': mode, 'files': files, 'replied': replied}
+
+    def shares_request(self, user):
+        from aioslsk.protocol.messages import PeerSharesRequest, PeerSharesReply
+        conn = Conn(user)
+        self.w.run(self.w.client.peers._on_peer_shares_request(PeerSharesRequest.Request(), conn))
+        holders = {}
+        for d in self.sm.shared_directories:
+            for it in d.items:
+                holders[(it.get_remote_directory_path(), it.filename)] = (d.share_mode.value, list(d.users))
+        it = d = None
+        out = {'replied': False, 'visible': [], 'locked': [], 'holders': holders}
+        for m in conn.sent:
+            if isinstance(m, PeerSharesReply.Request):
+                out['replied'] = True
+                out['visible'] = [(dd.name, f.filename) for dd in m.directories for f in dd.files]
+                out['locked'] = [(dd.name, f.filename) for dd in (m.locked_directories or []) for f in dd.files]
+        return out
 
     def cycle(self, request=True):
         from aioslsk.transfer.manager import _RequestFlag
@@ -281,6 +300,8 @@ def run_scenario(scn):
                 out.append(sc.search(e[1], e[2]))
             elif k == 'dircontents':
                 out.append(sc.directory_contents(e[1], e[2]))
+            elif k == 'sharesreq':
+                out.append(sc.shares_request(e[1]))
             elif k == 'cycle':
                 out.append(sc.cycle())
             elif k == 'cycle_nr':
@@ -372,6 +393,18 @@ def monitor(scn, obs):
             if permitted and not created and not any(t[0] == user and t[1] == ob['rp'] for t in before):
                 key = K_F05 if h[3] else 'upload-refused-for-entitled'
                 found.append((key, f'{user} is entitled to {ob["rp"]!r} but the upload was refused', {'event': e, 'holder': h, 'reply': ob['reply']}))
+        elif k == 'sharesreq':
+            user = e[1]
+            if blocked(user, 'SHARES'):
+                if ob['replied']:
+                    found.append(('shares-reply-to-blocked-user', f'shares reply sent to {user} who is blocked for shares', {'event': e}))
+                continue
+            for part, want in (('visible', True), ('locked', False)):
+                for key in ob[part]:
+                    h = ob['holders'].get(tuple(key))
+                    if h is not None and dir_allows(h[0], h[1], cfg['friends'], user) != want:
+                        found.append(('shares-reply-wrong-part', f'shares reply for {user} lists {key[1]!r} of a {h[0]} directory as {part}',
+                                      {'event': e, 'file': list(key)}))
         elif k == 'dircontents':
             if ob.get('skipped'):
                 continue
@@ -546,8 +579,10 @@ def gen_scenario(rng):
             st = rng.choice(['QUEUED', 'INITIALIZING', 'UPLOADING', 'INCOMPLETE', 'PAUSED', 'ABORTED', 'ABORTED', 'ABORTED', 'COMPLETE', 'FAILED'])
             ar = rng.choice(['Requested', 'Requested', 'Blocked', 'File not shared']) if st == 'ABORTED' else None
             events.append(['set', rng.randrange(0, ntr), st, ar])
-        elif r < 0.94:
+        elif r < 0.92:
             events.append(['dircontents', u, rng.choice(fl)[:-1]])
+        elif r < 0.96:
+            events.append(['sharesreq', u])
         else:
             events.append(['cycle'])
     if rng.random() < 0.3:
@@ -655,12 +690,23 @@ def coq_scenario(nm, scn, obs, name):
                     return '[' + ';'.join(f'({nm.p(ap)},{nm.s(fn)})' for ap, fn in l) + ']'
                 ex = f'(Some ({conv(rep["visible"])},{conv(rep["locked"])}))'
             rows.append(f'ESearch {nm.s(e[1])} {nm.s(e[2])} {ex}')
+        elif k == 'sharesreq':
+            if not ob['replied']:
+                continue
+
+            def pl(l):
+                return '[' + ';'.join(f'({nm.s(a)},{nm.s(b2)})' for a, b2 in l) + ']'
+            rows.append(f'EShares {nm.s(e[1])} {pl(ob["visible"])} {pl(ob["locked"])}')
+        elif k == 'dircontents':
+            if ob.get('skipped') or not ob.get('replied'):
+                continue
+            rows.append(f'EDirContents {nm.s(ob["dir"])} {nm.sl(ob["files"])}')
         elif k in ('cycle', 'cycle_nr'):
             rows.append(f'ECycle {coq_transfers(nm, ob["transfers"])}')
     return '\n'.join(pre) + f'\nDefinition {name} : list ev := [\n ' + ';\n '.join(rows) + '].\n', len(rows)
 
 
-HEADER = ('From Coq Require Import NArith List Bool.\nFrom SlskGen Require Import CharTable.\nFrom Slsk Require Import C07.Model C08.Model.\n'
+HEADER = ('From Coq Require Import NArith List Bool.\nFrom SlskGen Require Import CharTable SharesGen.\nFrom Slsk Require Import C07.Model C08.Model.\n'
           'Import ListNotations.\nOpen Scope N_scope.\n')
 CFG0 = '(mkCfg [] [] [] [] 100%nat true)'
 
@@ -679,7 +725,8 @@ def coq_file(cases):
 def coq_positions(scn, obs):
     pos = []
     for i, (e, ob) in enumerate(zip(scn['events'], obs)):
-        if e[0] in ('dircontents', 'spin') or (e[0] in ('share', 'share_nc') and e[1][0] == 'scan' and 'disk' not in ob):
+        if e[0] == 'spin' or (e[0] == 'dircontents' and (ob.get('skipped') or not ob.get('replied'))) or (e[0] == 'sharesreq' and not ob['replied']) \
+                or (e[0] in ('share', 'share_nc') and e[1][0] == 'scan' and 'disk' not in ob):
             continue
         pos.append(i)
     return pos
@@ -709,7 +756,7 @@ def run(run: Run):
                     'settings watcher latency (<= 1 s poll) is not modelled: statements are about the cycle that follows a change',
                     'the harness injects a recording send_peer_messages and recording peer connections (no sockets)']
     run.assumptions += ['shared files exist on disk when requested', 'usernames are non-empty']
-    run.prove(['tr_chartable'])
+    proved = run.prove(['tr_chartable', 'tr_shares'])
 
     for key, wit, _fixed in run.known_witnesses():
         try:
@@ -720,7 +767,7 @@ def run(run: Run):
         except Exception as e:
             run.add_broken(f'replay-of-known-witness:{key}', f'{type(e).__name__}: {e}')
 
-    n = int(os.environ.get('VERIF_C08_N', 0)) or (70 if run.tier == 'quick' else 400)   # env override: development aid for mutant runs
+    n = (int(os.environ.get('VERIF_C08_N', 0)) or (70 if run.tier == 'quick' else 400)) + (0 if proved else 40)   # broken tie: search longer   # env override: development aid for mutant runs
     cases = []
     new = {}
     for i in range(n):
